@@ -47,6 +47,13 @@ def plan(tier: str, seed: int) -> list[dict]:
             "placement": rng.choice(["seq", "rev", "shuffle", "runs", "coincidence", "coincidence"]),
             "unaligned": rng.random() < 0.4, "weight": 1 + (ms * ncl >> 11),
         })
+    # clusters larger than 1 MiB, and version-2 images of 2 TiB and more (a 64-bit sector count), in both tiers
+    for j in range(4 if tier == "quick" else 40):
+        cases.append({"k": "hds", "i": 5000 + j, "ver": 1 + j % 2, "ms": [4096, 8192][j % 2], "n": rng.randrange(3, 6), "placement": "shuffle",
+                      "unaligned": False, "weight": 8})
+    for j in range(3 if tier == "quick" else 30):
+        cases.append({"k": "hds", "i": 6000 + j, "ver": 2, "ms": 65536, "n": 65536 + rng.choice([0, 1, 7, 4000]), "placement": "shuffle",
+                      "unaligned": False, "big": True, "weight": 10})
     for i in range(6 if tier == "quick" else 60):
         cases.append({"k": "plain", "i": i})
     for i in range(16 if tier == "quick" else 200):
@@ -244,8 +251,13 @@ def run(case: dict, ctx) -> dict:
 
     ms, n, ver = case["ms"], case["n"], case["ver"]
     tail = rng.choice([0, 0, rng.randrange(0, ms)]) if n else 0
+    big_states = None
+    if case.get("big"):
+        big_states = ["U"] * n
+        for c_ in {0, 1, n - 1, n // 2, 65535, rng.randrange(n)}:
+            big_states[c_] = "A"
     sf, layer, meta = w.build_hds(
-        rng, version=ver, m_sectors=ms, nclusters=n, tail_cut_sectors=tail, placement=case["placement"],
+        rng, version=ver, m_sectors=ms, nclusters=n, tail_cut_sectors=tail, placement=case["placement"], states=big_states,
         tag=rng.getrandbits(48), unaligned_v1=case["unaligned"], first_block_gap=rng.choice([0, 0, 1, 3]),
         in_use=rng.random() < 0.2,
     )
@@ -275,7 +287,9 @@ def run(case: dict, ctx) -> dict:
     if st.size != meta["size"]:
         res["viol"].append({"what": "size mismatch", "mech": MECH, "detail": {"got": st.size, "exp": meta["size"]}})
     cs = meta["cluster_size"]
-    reqs, exhaustive = gen_requests(rng, meta["size"], [cs], n_random=40 if ctx.tier == "quick" else 150)
+    extra_pts = [c_ * cs for c_, s_ in enumerate(meta["states"]) if s_ == "A"][:12] if case.get("big") else ()
+    reqs, exhaustive = gen_requests(rng, meta["size"], [cs], n_random=40 if ctx.tier == "quick" else 150, extra=extra_pts)
+    res["cnt"]["images_of_2TiB_or_more"] = int(meta["size"] >= 1 << 41)
     continuation_reads(st, model, reqs, rng, res, MECH)
     fault_retry_reads(st, model, reqs, rng, res, MECH)
     compare_reads(st, model, reqs, res, MECH)
